@@ -171,6 +171,7 @@ def run(ctx):
     finite_kernels(ctx)
     targeted(ctx)
     multi_epoch(ctx)
+    nonfinite_inputs(ctx)
 
 
 def _bounds_owner(est):
@@ -309,3 +310,39 @@ def multi_epoch(ctx):
             ctx.issue("violation", f"{name}.{stage.split('(')[0].replace(' ', '_')}:multi-epoch:{exc_enum(e)}",
                       f"{stage} raised {e!r} on data accepted by validate_data", desc)
         cov.case(("epochs", name, fam.spec, desc["rows"], k), True)
+
+
+def nonfinite_inputs(ctx):
+    """a matrix with a NaN or infinite entry: either the estimator's own validate_data rejects it (then it is outside
+    the statement), or — if validation lets it through — training on it must still keep every weight finite"""
+    cov = ctx.cov
+    names = families.ELEM + ["FusionART", "DualVigilanceART", "TopoART"]
+    for i in range(ctx.scale(44, 400)):
+        r = gen.rng_for(ctx.seed, "C04-nonfinite", i)
+        name = names[i % len(names)]
+        fam, rows = families.build(r, name, r.randint(3, 8))
+        X = np.array(rows.arrs["X"], dtype=float)
+        bad = r.choice([np.nan, np.nan, np.inf, -np.inf])
+        X[r.randrange(len(X)), r.randrange(X.shape[1])] = bad
+        desc = dict(fam.describe(), X=X.tolist())
+        try:
+            est = fam.make()
+        except Exception:
+            continue
+        try:
+            with quiet():
+                est.validate_data(X)
+        except Exception:
+            cov.hit("non-finite-entry:rejected-by-validate_data")
+            continue
+        cov.hit("non-finite-entry:ACCEPTED-by-validate_data")
+        try:
+            with quiet(), np.errstate(all="ignore"):
+                est.fit(X)
+            if not finite_weights(est):
+                ctx.issue("violation", f"{name}:validate_data-accepts-{'nan' if bad != bad else 'inf'}-then-non-finite-weights",
+                          f"validate_data accepted a matrix with a {bad} entry and fit left non-finite weights", desc)
+        except Exception as e:
+            ctx.issue("violation", f"{name}:validate_data-accepts-{'nan' if bad != bad else 'inf'}-then-fit-raises:{exc_enum(e)}",
+                      f"validate_data accepted a matrix with a {bad} entry and fit raised {e!r}", desc)
+        cov.case(("nonfinite", name, fam.spec, desc["X"]), True)
